@@ -285,4 +285,158 @@ theorem div_2expmod_spec (xs : List Nat) (h d : Nat) (hx : Limbs (xs ++ [h])) (h
   have e : (B : Int) ^ (m + 1) = (B : Int) ^ m * (2 ^ (64 - d) * 2 ^ d) := by rw [pow_succ, ← hB2]
   linear_combination hdm' + (B : Int) ^ (m + 1) * hse - (2 ^ d * (B : Int) ^ (m + 1)) * hA + (r : Int) * e + ((B : Int) ^ (m + 1) * neg) * hB2
 
+/-! ### the limb rotation (multiplication by B^x) and mpir_fft_adjust -/
+
+theorem sl_mid (a b c : List Nat) : sl (a ++ b ++ c) a.length (a.length + b.length) = b := by
+  unfold sl; simp
+
+theorem neg_n_spec (u : List Nat) (hu : Limbs u) :
+    val (neg_n u).1 + val u = B ^ u.length * (neg_n u).2 ∧ (neg_n u).2 ≤ 1 ∧
+    Limbs (neg_n u).1 ∧ (neg_n u).1.length = u.length := by
+  obtain ⟨h1, h2, h3, h4⟩ := negNC_zero_val u hu
+  refine ⟨h1, ?_, h3, h4⟩
+  rcases h2 with ⟨h, _⟩ | ⟨h, _⟩ <;> unfold neg_n <;> omega
+
+theorem sub_1_spec (r : List Nat) (v : Nat) (hr : Limbs r) (hne : 0 < r.length) (hv : v < B) :
+    val (sub_1 r v).1 + v = val r + B ^ r.length * (sub_1 r v).2 ∧ (sub_1 r v).2 ≤ 1 ∧
+    Limbs (sub_1 r v).1 ∧ (sub_1 r v).1.length = r.length := by
+  obtain ⟨r0, rs, rfl⟩ := List.exists_cons_of_length_pos hne
+  simpa using sub_1_val' r0 rs v hr hv
+
+theorem add_1_spec (r : List Nat) (v : Nat) (hr : Limbs r) (hne : 0 < r.length) (hv : v < B) :
+    val (add_1 r v).1 + B ^ r.length * (add_1 r v).2 = val r + v ∧ (add_1 r v).2 ≤ 1 ∧
+    Limbs (add_1 r v).1 ∧ (add_1 r v).1.length = r.length := by
+  obtain ⟨r0, rs, rfl⟩ := List.exists_cons_of_length_pos hne
+  simpa using add_1_val' r0 rs v hr hv
+
+theorem addmod1_spec' (r : List Nat) (c : Nat) (hr : Limbs r) (hne : 0 < r.length) (hc : c < B) :
+    (∃ k : Int, (val (addmod1 r c) : Int) = val r + sint c + k * (B : Int) ^ r.length) ∧
+    Limbs (addmod1 r c) ∧ (addmod1 r c).length = r.length := by
+  obtain ⟨r0, rs, rfl⟩ := List.exists_cons_of_length_pos hne
+  simpa using addmod1_spec r0 rs c hr hc
+
+theorem fits_rot (P X v w s : Int) (hX : X * (B : Int) ≤ P) (hX0 : 0 < X) (hv0 : 0 ≤ v) (hv1 : v < P)
+    (hw0 : 0 ≤ w) (hw1 : w < X) (hs1 : -9223372036854775808 ≤ s) (hs2 : s < 9223372036854775808) :
+    -(P * (B : Int)) ≤ 2 * (v - w - X * s) ∧ 2 * (v - w - X * s) < P * (B : Int) := by
+  rw [BZ_eq] at *
+  have h1 : X * (-9223372036854775808) ≤ X * s := mul_le_mul_of_nonneg_left hs1 (le_of_lt hX0)
+  have h2 : X * s ≤ X * 9223372036854775807 := mul_le_mul_of_nonneg_left (by omega) (le_of_lt hX0)
+  constructor <;> linarith
+
+/-- `mulBx` multiplies by B^x modulo p (x < limbs) -/
+theorem mulBx_spec (L H : List Nat) (h : Nat) (hx : Limbs (L ++ H ++ [h])) (hL : 1 ≤ L.length) (hmin : h ≠ B / 2) :
+    ∃ ys g, mulBx (L ++ H ++ [h]) H.length = ys ++ [g] ∧ ys.length = L.length + H.length ∧ Limbs (ys ++ [g]) ∧
+      rval (ys ++ [g]) ≡ rval (L ++ H ++ [h]) * (B : Int) ^ H.length [ZMOD pmod (L.length + H.length)] ∧
+      rval (ys ++ [g]) = (B : Int) ^ H.length * val L - val H - (B : Int) ^ H.length * sint h := by
+  have ⟨hLH, hh⟩ := Limbs_snoc.mp hx
+  have ⟨hLl, hHl⟩ := Limbs_append.mp hLH
+  -- the pieces
+  have hlen : (L ++ H ++ [h]).length - 1 = L.length + H.length := by simp
+  have hsl : sl (L ++ H ++ [h]) (L.length + H.length - H.length) (L.length + H.length) = H := by
+    rw [Nat.add_sub_cancel]; exact sl_mid L H [h]
+  have htk : (L ++ H ++ [h]).take (L.length + H.length - H.length) = L := by
+    rw [Nat.add_sub_cancel]; simp
+  obtain ⟨nv, nc, nl, nn⟩ := neg_n_spec H hHl
+  set rlo := (neg_n H).1
+  set cy := (neg_n H).2
+  have hr0 : Limbs (L ++ [0]) := Limbs_snoc.mpr ⟨hLl, B_pos⟩
+  obtain ⟨⟨k, hk⟩, al, an⟩ := addmod1_spec' (L ++ [0]) (lneg h) hr0 (by simp) (lneg_lt h)
+  set r1 := addmod1 (L ++ [0]) (lneg h)
+  have hcy : cy < B := by have := B_eq; omega
+  obtain ⟨sv, _, sl1, sn⟩ := sub_1_spec r1 cy al (by rw [an]; simp) hcy
+  set r2 := (sub_1 r1 cy).1
+  set bw := (sub_1 r1 cy).2
+  have hres : mulBx (L ++ H ++ [h]) H.length = rlo ++ r2 := by
+    unfold mulBx
+    simp only [hlen, hsl, htk, top_snoc]
+    rfl
+  have hl2 : (rlo ++ r2).length = (L.length + H.length) + 1 := by
+    simp [nn, sn, an]; omega
+  obtain ⟨ys, g, hyg, hys⟩ := exists_snoc _ _ hl2
+  have hLim : Limbs (ys ++ [g]) := by rw [← hyg]; exact Limbs_append.mpr ⟨nl, sl1⟩
+  rw [sint_lneg h hh hmin] at hk
+  simp only [List.length_append, List.length_cons, List.length_nil, val_snoc] at hk an sn
+  have hvr : (val (ys ++ [g]) : Int) = ((B : Int) ^ H.length * val L - val H - (B : Int) ^ H.length * sint h) +
+      (k + bw) * (B : Int) ^ (ys.length + 1) := by
+    rw [← hyg, val_append, nn, hys]
+    have nv' := congrArg (fun z : Nat => (z : Int)) nv
+    have sv' := congrArg (fun z : Nat => (z : Int)) sv
+    rw [an] at sv'
+    push_cast at nv' sv' hk ⊢
+    have e : (B : Int) ^ (L.length + H.length + 1) = (B : Int) ^ H.length * (B : Int) ^ (L.length + 1) := by
+      rw [← pow_add]; congr 1; omega
+    rw [e]
+    linear_combination nv' + (B : Int) ^ H.length * sv' + (B : Int) ^ H.length * hk
+  have hs := sint_range h hh
+  have hL0 : (0 : Int) ≤ val L := by positivity
+  have hL1 := valZ_lt L hLl
+  have hH0 : (0 : Int) ≤ val H := by positivity
+  have hH1 := valZ_lt H hHl
+  have hXpos := BZpow_pos H.length
+  have hPX : (B : Int) ^ (L.length + H.length) = (B : Int) ^ H.length * (B : Int) ^ L.length := by
+    rw [← pow_add]; congr 1; omega
+  have hBL := B_le_pow L.length hL
+  have hrv : rval (ys ++ [g]) = (B : Int) ^ H.length * val L - val H - (B : Int) ^ H.length * sint h := by
+    have hf := fits_rot ((B : Int) ^ (L.length + H.length)) ((B : Int) ^ H.length) ((B : Int) ^ H.length * val L) (val H) (sint h)
+      (by rw [hPX]; exact mul_le_mul_of_nonneg_left hBL (le_of_lt hXpos)) hXpos
+      (mul_nonneg (le_of_lt hXpos) hL0) (by rw [hPX]; exact mul_lt_mul_of_pos_left hL1 hXpos) hH0 hH1 hs.1 hs.2
+    apply rval_of_eq ys g hLim _ (k + bw) hvr
+    · rw [hys, pow_succ]; exact hf.1
+    · rw [hys, pow_succ]; exact hf.2
+  refine ⟨ys, g, by rw [hres, hyg], hys, hLim, ?_, hrv⟩
+  rw [modEq_pmod_iff]; refine ⟨-((val H : Int) + (B : Int) ^ H.length * sint h), ?_⟩
+  rw [hrv, rval_snoc, val_append]; simp only [List.length_append]; push_cast
+  rw [hPX]; ring
+
+/-- mul_2expmod for every d < 64 (d = 0 copies) -/
+theorem mul_2expmod_cong (xs : List Nat) (h d : Nat) (hx : Limbs (xs ++ [h])) (hn : 1 ≤ xs.length) (hd : d < 64) :
+    ∃ ys g, mul_2expmod (xs ++ [h]) d = ys ++ [g] ∧ ys.length = xs.length ∧ Limbs (ys ++ [g]) ∧
+      rval (ys ++ [g]) ≡ rval (xs ++ [h]) * 2 ^ d [ZMOD pmod xs.length] := by
+  by_cases hd0 : d = 0
+  · subst hd0
+    refine ⟨xs, h, by simp [mul_2expmod], rfl, hx, by simp⟩
+  · obtain ⟨ys, g, h1, h2, h3, h4, _⟩ := mul_2expmod_spec xs h d hx hn (by omega) (by omega)
+    exact ⟨ys, g, h1, h2, h3, h4⟩
+
+theorem B_pow_two (x : Nat) : (B : Int) ^ x = 2 ^ (64 * x) := by
+  rw [pow_mul]; congr 1
+
+theorem adjust_spec (xs : List Nat) (h i w : Nat) (hx : Limbs (xs ++ [h])) (hiw : i * w < 64 * xs.length)
+    (hmin : h ≠ B / 2) :
+    ∃ ys g, adjust (xs ++ [h]) i w = ys ++ [g] ∧ ys.length = xs.length ∧ Limbs (ys ++ [g]) ∧
+      rval (ys ++ [g]) ≡ rval (xs ++ [h]) * 2 ^ (i * w) [ZMOD pmod xs.length] := by
+  have hn : 1 ≤ xs.length := by omega
+  unfold adjust
+  simp only
+  have hdm := Nat.div_add_mod (i * w) 64
+  have hd : i * w % 64 < 64 := Nat.mod_lt _ (by norm_num)
+  by_cases hX : i * w / 64 = 0
+  · simp only [hX, ne_eq, not_true_eq_false, ↓reduceIte]
+    have : i * w = i * w % 64 := by omega
+    obtain ⟨ys, g, h1, h2, h3, h4⟩ := mul_2expmod_cong xs h (i * w % 64) hx hn hd
+    exact ⟨ys, g, h1, h2, h3, by rw [← this] at h4; exact h4⟩
+  · simp only [hX, ne_eq, not_false_eq_true, ↓reduceIte]
+    set X := i * w / 64 with hXd
+    have hXn : X < xs.length := by omega
+    -- split xs = L ++ H
+    set L := xs.take (xs.length - X) with hLd
+    set H := xs.drop (xs.length - X) with hHd
+    have hLH : xs = L ++ H := (List.take_append_drop _ _).symm
+    have hLl : L.length = xs.length - X := by simp [hLd]
+    have hHl : H.length = X := by simp [hHd]; omega
+    have hx' : Limbs (L ++ H ++ [h]) := by rw [← hLH]; exact hx
+    obtain ⟨ms, mg, m1, m2, m3, m4, _⟩ := mulBx_spec L H h hx' (by omega) hmin
+    rw [hHl, ← hLH] at m1
+    rw [m1]
+    have hmsl : ms.length = xs.length := by rw [m2, hLl, hHl]; omega
+    obtain ⟨ys, g, h1, h2, h3, h4⟩ := mul_2expmod_cong ms mg (i * w % 64) m3 (by omega) hd
+    refine ⟨ys, g, h1, by rw [h2, hmsl], h3, ?_⟩
+    rw [hmsl] at h4
+    rw [← hLH, hLl, hHl, show xs.length - X + X = xs.length by omega] at m4
+    refine h4.trans ?_
+    have e : (2 : Int) ^ (i * w) = (B : Int) ^ X * 2 ^ (i * w % 64) := by
+      rw [B_pow_two, ← pow_add]; congr 1; omega
+    rw [e, ← mul_assoc]
+    exact Int.ModEq.mul_right _ m4
+
 end Mpir.Fft
